@@ -524,6 +524,8 @@ def attempt_segment(env, k, j, rng):
         fin["ret"] = H.mark()
         H.pending.pop(owner, None)
         stale.setdefault(k, []).append(w)
+        if out == "not-reached" and f["fired"]:
+            out = "swallowed"       # the library caught the OSError itself; the block then failed with the user exception
         ctx.count("finish.iofault." + out)
         if f["fired"]:
             ctx.count("finish.iofault.at.%s" % f["fired"][0])
@@ -1096,6 +1098,416 @@ def run_fork_case(ctx, idx, rng):
     ctx.case(("fork", mode), True)
 
 
+# ----------------------------------------------------------------------
+# I/O faults inside the with-block (sequential, enumerated)
+# ----------------------------------------------------------------------
+
+def _fault_schema():
+    from whoosh import fields
+    return fields.Schema(id=fields.ID(stored=True, unique=True), t=fields.TEXT(stored=True, vector=True),
+                         n=fields.NUMERIC(stored=True, sortable=True))
+
+
+def _fault_fileclass(name):
+    b = str(name)
+    if b.startswith("ram:"):
+        b = b[4:]
+        pre = "ram:"
+    else:
+        pre = ""
+        if os.sep + "MAIN.tmp" + os.sep in b or b.startswith("MAIN.tmp" + os.sep):
+            return "tmp"
+        b = os.path.basename(b)
+    if TOCRE.match(b) or re.match(r"^_MAIN_[0-9]+\.toc\.", b):
+        return pre + "toc"
+    if b.endswith(".seg"):
+        return pre + "seg"
+    if re.match(r"^MAIN_[0-9a-z]{16}\.", b):
+        return pre + "loose"
+    if b.endswith(".tmp") or b.endswith(".ctmp") or b.endswith(".run") or "MAIN.tmp" in b:
+        return pre + "tmp"
+    return pre + "other"
+
+
+def gen_fault_plan(rng):
+    """A deterministic description of one faulty transaction: base commits + the body of the with-block."""
+    base = []
+    for p in range(rng.randint(1, 3)):
+        base.append([("base%d.%d" % (p, i), gen_text(rng), rng.randint(0, 9)) for i in range(rng.randint(1, 3))])
+    live = [k for seg in base for (k, _, _) in seg]
+    body = []
+    for i in range(rng.randint(2, 5)):
+        body.append(("add", "new%d" % i, " ".join(rng.choice(VOCAB) for _ in range(rng.randint(2, 10))), rng.randint(0, 9)))
+    pool = list(live)
+    rng.shuffle(pool)
+    for kind in rng.sample(["del", "delq", "upd", "read", "deldoc"], rng.randint(1, 4)):
+        if kind == "read":
+            body.insert(rng.randrange(len(body) + 1), ("read",))
+        elif pool:
+            body.insert(rng.randrange(len(body) + 1), (kind, pool.pop(), gen_text(rng), rng.randint(0, 9)))
+    return {"storage": rng.choice(["file", "file", "ram"]), "compound": rng.random() < 0.6,
+            "limitmb": rng.choice([0.0002, 0.0002, 0.001, None]), "front": rng.choice(["segment", "segment", "async"]),
+            "base": base, "body": body, "base_compound": rng.random() < 0.6}
+
+
+def _fault_body(w, plan):
+    from whoosh import query
+    for op in plan["body"]:
+        if op[0] == "add":
+            w.add_document(id=op[1], t=op[2], n=op[3])
+        elif op[0] == "del":
+            w.delete_by_term("id", op[1])
+        elif op[0] == "delq":
+            w.delete_by_query(query.Term("id", op[1]))
+        elif op[0] == "upd":
+            w.update_document(id=op[1], t=op[2], n=op[3])
+        elif op[0] == "deldoc":
+            with w.searcher() as s:
+                dn = s.document_number(id=op[1])
+            if dn is not None:
+                w.delete_document(dn)
+        elif op[0] == "read":
+            with w.searcher() as s:
+                list(s.search(query.Term("t", "alfa"), limit=None))
+
+
+def _fault_build(plan, d):
+    from whoosh import index
+    from whoosh.filedb.filestore import RamStorage
+    if plan["storage"] == "file":
+        ix = index.create_in(d, _fault_schema())
+    else:
+        ix = RamStorage().create_index(_fault_schema())
+    for seg in plan["base"]:
+        w = ix.writer(compound=plan["base_compound"])
+        for (k, t, n) in seg:
+            w.add_document(id=k, t=t, n=n)
+        w.commit(merge=False)
+    return ix
+
+
+def _state_of(ix):
+    g, keys, docs = read_keys(ix)
+    return ix.latest_generation(), keys, docs
+
+
+def fault_run(ctx, plan, tap, root, where, k, seedtag):
+    """One execution of the plan with a one-shot fault before the k-th faultable storage event of phase `where`
+    ('body' = inside the with-block before commit starts; 'commit' = inside commit()); k = 0: no fault (counts events).
+    Returns a dict of observations. The caller judges."""
+    from whoosh import index, writing
+    d = os.path.join(root, "ix")
+    if os.path.exists(d):
+        shutil.rmtree(d)
+    os.mkdir(d)
+    st = {"armed": False, "n": 0, "fired": None}
+
+    def on_event(n, kind, name, detail=None):
+        if st["armed"] and kind in FAULT_KINDS and not is_lock(name):
+            st["n"] += 1
+            if st["n"] == k:
+                st["armed"] = False
+                st["fired"] = (kind, _fault_fileclass(name))
+                raise InjectedFault(5, "injected I/O fault before %s" % kind, str(name))
+    res = {}
+    tap.on_event = None
+    tap.pause()
+    random.seed("c04-faultcase:%s" % seedtag)
+    ix = _fault_build(plan, d)
+    g0, keys0, docs0 = _state_of(ix)
+    res["g0"], res["keys0"] = g0, keys0
+    tap.on_event = on_event
+    tap.resume()
+    wk = {"compound": plan["compound"]}
+    if plan["limitmb"]:
+        wk["limitmb"] = plan["limitmb"]
+    try:
+        try:
+            if plan["front"] == "async":
+                w = writing.AsyncWriter(ix, writerargs=wk)
+            else:
+                w = ix.writer(**wk)
+            if where == "body":
+                with w:
+                    st["armed"] = True
+                    _fault_body(w, plan)
+                    st["armed"] = False
+                    raise Boom()
+            else:
+                _fault_body(w, plan)
+                st["armed"] = True
+                try:
+                    w.commit(**commit_kwargs(plan.get("commit", "default")))
+                finally:
+                    st["armed"] = False
+                res["out"] = "returned"
+        except Boom:
+            res["out"] = "boom"
+        except InjectedFault:
+            res["out"] = "fault"
+        except Exception as e:  # noqa - a secondary exception replaced the injected one
+            from vf.core import whoosh_site
+            site, in_harness = whoosh_site(e)
+            if in_harness:
+                raise
+            res["out"] = "other:%s@%s" % (type(e).__name__, site)
+            res["tb"] = "".join(traceback.format_exception(type(e), e, e.__traceback__))[-2000:]
+    finally:
+        st["armed"] = False
+        tap.pause()
+        tap.on_event = None
+    res["nevents"], res["fired"] = st["n"], st["fired"]
+    # ---- what a user can do next
+    try:
+        w2 = ix.writer(timeout=0.05, delay=0.01)
+    except index.LockError:
+        res["lock"] = "held"
+        if where == "commit":
+            # observation: does cancel() on the writer whose commit() failed give the index back?
+            try:
+                w.cancel()
+                res["cancel_after"] = "returned"
+            except Exception as e:  # noqa
+                res["cancel_after"] = "raised:" + type(e).__name__
+            try:
+                ix.writer(timeout=0).cancel()
+                res["lock_after_cancel"] = "free"
+            except index.LockError:
+                res["lock_after_cancel"] = "held"
+            except Exception as e:  # noqa
+                res["lock_after_cancel"] = "exc:" + type(e).__name__
+        return res
+    res["lock"] = "free"
+    try:
+        w2.cancel()
+        res["after"] = _state_of(ix)
+        w3 = ix.writer(timeout=0)
+        w3.add_document(id="later", t="zulu", n=1)
+        w3.commit(merge=False)
+        res["later"] = _state_of(ix)
+        w4 = ix.writer(timeout=0)
+        w4.cancel()
+        res["lock_after_later"] = "free"
+    except index.LockError:
+        res["lock_after_later"] = "held"
+    except Exception as e:  # noqa
+        from vf.core import whoosh_site
+        site, in_harness = whoosh_site(e)
+        if in_harness:
+            raise
+        res["later_exc"] = "%s@%s" % (type(e).__name__, site)
+        res["tb"] = "".join(traceback.format_exception(type(e), e, e.__traceback__))[-2000:]
+    res["docs0"] = docs0
+    return res
+
+
+def run_fault_case(ctx, idx, rng):
+    from vf.tap import Tap
+    plan = gen_fault_plan(rng)
+    plan["commit"] = rng.choice(["default", "nomerge", "optimize"])
+    root = tempfile.mkdtemp(prefix="vf-c04x-")
+    taproot = root if plan["storage"] == "file" else tempfile.gettempdir()
+    tap = Tap(root=taproot, unbuffered=False, track=False, tap_ram=(plan["storage"] == "ram"), keep_events=False)
+    tap.install()
+    wb = {"case": idx, "kind": "io-fault-in-with-block", "plan": plan}
+    ctx.count("fault.cases")
+    ctx.count("fault.cases.%s" % plan["storage"])
+    failed = False
+    nbody = 0
+    try:
+        seedtag = "%d:%d" % (ctx.seed, idx)
+        r0 = fault_run(ctx, plan, tap, root, "body", 0, seedtag)
+        nbody = r0["nevents"]
+        ctx.count("fault.body_events", nbody)
+        if r0["out"] != "boom" or r0["lock"] != "free" or r0.get("after", (None, None))[:2] != (r0["g0"], r0["keys0"]):
+            # the plain failing with-block (user exception) of this very plan: judged like every fault point below
+            pass
+        ks = list(range(0, nbody + 1))
+        cap = ctx.pick(14, 60)
+        if len(ks) > cap:
+            ks = [0] + sorted(rng.sample(ks[1:], cap - 1))
+        for k in ks:
+            r = r0 if k == 0 else fault_run(ctx, plan, tap, root, "body", k, seedtag)
+            w = dict(wb)
+            w.update({"fault_before_event": k, "events_in_block": nbody, "fired": r["fired"], "outcome": r["out"]})
+            where = "%s:%s" % (r["fired"] if r["fired"] else ("user-exception", "-"))
+            if k:
+                ctx.count("fault.points")
+                ctx.count("fault.points.%s" % plan["storage"])
+                ctx.count("fault.out." + r["out"].split("@")[0])
+                if r["fired"]:
+                    ctx.count("fault.at.%s" % where)
+                else:
+                    ctx.count("fault.not_reached")
+            else:
+                ctx.count("fault.user_exception_runs")
+            ctx.count("fault.checks.lock_free")
+            if r["lock"] != "free":
+                ctx.fail("progress", "lock-held-after-failing-with-block:%s:%s" % (plan["storage"], where), w,
+                         "ix.writer(timeout=0.05) raised LockError after the with-block failed with %s" % r["out"])
+                failed = True
+                break
+            if "after" in r:
+                ctx.count("fault.checks.content_unchanged")
+                g, keys, docs = r["after"]
+                if g != r["g0"]:
+                    ctx.fail("generation", "generation-changed-by-failing-with-block:%s" % where, dict(w, g0=r["g0"], g=g))
+                    failed = True
+                    break
+                if keys != r["keys0"] or docs != r["docs0"]:
+                    ctx.fail("lost-update", "content-changed-by-failing-with-block:%s" % where,
+                             dict(w, before=r["keys0"], after=keys))
+                    failed = True
+                    break
+            if "later_exc" in r:
+                ctx.fail("progress", "later-writer-fails-after-failing-with-block:%s:exc:%s" % (where, r["later_exc"]), w,
+                         r.get("tb", ""))
+                failed = True
+                break
+            if r.get("lock_after_later") == "held":
+                ctx.fail("progress", "lock-held-after-later-commit:%s" % where, w)
+                failed = True
+                break
+            if "later" in r:
+                ctx.count("fault.checks.later_commit")
+                g, keys, docs = r["later"]
+                exp = sorted(r["keys0"] + ["later"])
+                if g != r["g0"] + 1:
+                    ctx.fail("generation", "later-commit-advanced-generation-by-other-than-one:%s" % where,
+                             dict(w, g0=r["g0"], g=g))
+                    failed = True
+                    break
+                if keys != exp:
+                    ctx.fail("lost-update", "content-after-later-commit:%s" % where, dict(w, expected=exp, observed=keys))
+                    failed = True
+                    break
+        # ---- observation only: a fault INSIDE commit() (the statement promises nothing there)
+        if not failed:
+            c0 = fault_run(ctx, plan, tap, root, "commit", 0, seedtag)
+            nc = c0["nevents"]
+            for k in sorted(rng.sample(range(1, nc + 1), min(nc, ctx.pick(4, 12)))) if nc else []:
+                r = fault_run(ctx, plan, tap, root, "commit", k, seedtag)
+                ctx.count("obs.commit_fault.points")
+                ctx.count("obs.commit_fault.out." + r["out"].split(":")[0])
+                ctx.count("obs.commit_fault.lock_" + r["lock"])
+                if r["lock"] == "held" and r["fired"]:
+                    ctx.count("obs.commit_fault.lock_held.at.%s:%s" % r["fired"])
+                if "cancel_after" in r:
+                    ctx.count("obs.commit_fault.cancel_afterwards." + r["cancel_after"])
+                    ctx.count("obs.commit_fault.lock_after_cancel." + r["lock_after_cancel"])
+                if "after" in r:
+                    g, keys, docs = r["after"]
+                    if (g, keys) == (r["g0"], r["keys0"]):
+                        ctx.count("obs.commit_fault.state.old")
+                    elif g == r["g0"] + 1:
+                        ctx.count("obs.commit_fault.state.new_generation")
+                    else:
+                        ctx.count("obs.commit_fault.state.other")
+                if "later_exc" in r:
+                    ctx.count("obs.commit_fault.later_writer_fails")
+                elif "later" in r:
+                    ctx.count("obs.commit_fault.later_commit_ok")
+    finally:
+        tap.on_event = None
+        tap.uninstall()
+        shutil.rmtree(root, ignore_errors=True)
+    kinds = tuple(sorted(set(op[0] for op in plan["body"])))
+    ctx.case(("io-fault", plan["storage"], plan["compound"], plan["front"], bool(plan["limitmb"]), kinds),
+             nbody >= 3 and not failed,
+             {"case": wb, "events_in_block": nbody} if (nbody >= 3 and idx % 7 == 0) else None)
+
+
+# ----------------------------------------------------------------------
+# MpWriter (procs=2) as one of the racing writers (subprocess, timeout guard)
+# ----------------------------------------------------------------------
+
+def run_mp_case(ctx, idx, rng):
+    from vf.core import ROOT, repo_root
+    k = idx // ctx.nshards
+    mode = ["commit", "cancel", "mp-second", "with-exception"][(k // 25) % 4]
+    multiseg = bool(((k // 25) // 4 + idx % ctx.nshards) % 2)
+    root = tempfile.mkdtemp(prefix="vf-c04m-")
+    wb = {"case": idx, "kind": "mpwriter-race", "mode": mode, "multisegment": multiseg}
+    env = dict(os.environ)
+    env["PYTHONPATH"] = ROOT + os.pathsep + env.get("PYTHONPATH", "")
+    env["PYTHONHASHSEED"] = "0"
+    env["VERIF_REPO"] = repo_root()
+    ctx.count("mp.cases")
+    ok = False
+    try:
+        try:
+            r = subprocess.run([sys.executable, "-W", "ignore", "-m", "vf.workers.c04_mp", os.path.join(root), mode,
+                                "1" if multiseg else "0", "%d:%d" % (ctx.seed, idx)],
+                               cwd=ROOT, env=env, capture_output=True, text=True, timeout=120)
+        except subprocess.TimeoutExpired:
+            ctx.count("mp.watchdog")
+            ctx.note("mp case %d (%s): worker exceeded 120 s" % (idx, mode))
+            return
+        lines = [ln for ln in r.stdout.splitlines() if ln.startswith("{")]
+        o = json.loads(lines[-1]) if lines else {}
+        w = dict(wb, observed=o)
+        if r.returncode == 3:
+            ctx.fail("no-exception", "mp:%s:exc:%s" % (mode, o.get("error", "?")), w, r.stderr[-1500:])
+            return
+        if r.returncode != 0 or not o:
+            raise AssertionError("harness: c04_mp exit %s\n%s" % (r.returncode, r.stderr[-1500:]))
+        ctx.count("mp.completed")
+        ctx.count("mp.mode.%s.%s" % (mode, "multisegment" if multiseg else "merged"))
+        SLACK = 0.010
+        g0 = o["g0"]
+        bad = []
+        if mode == "mp-second":
+            if o["mp_while_held"] != "lockerror":
+                bad.append(("mutex", "mp:mpwriter-obtained-while-a-writer-held", ""))
+            elif o["mp_while_held_waited"] + SLACK < o["small_timeout"]:
+                bad.append(("timeout", "mp:lockerror-before-timeout-elapsed", ""))
+            else:
+                ctx.count("mp.lockerror.mpwriter_as_second")
+            if o["nested_while_mp"] != "lockerror":
+                bad.append(("mutex", "mp:second-writer-obtained-while-mpwriter-held:same-thread", ""))
+            if o["g_after_first"] != g0 + 1 or o["g_after_mp"] != g0 + 2:
+                bad.append(("generation", "mp:commit-advanced-generation-by-other-than-one",
+                            "g0=%d after plain commit %d after MpWriter commit %d" % (g0, o["g_after_first"], o["g_after_mp"])))
+            exp_gen_after = g0 + 2
+        else:
+            for where in ("same_thread", "other_thread", "other_process"):
+                if o[where] == "lockerror":
+                    ctx.count("mp.lockerror." + where)
+                else:
+                    bad.append(("mutex", "mp:second-writer-obtained-while-mpwriter-held:%s" % where.replace("_", "-"),
+                                "the attempt returned %r" % (o[where],)))
+            if o["same_thread"] == "lockerror" and o["same_thread_waited"] + SLACK < o["small_timeout"]:
+                bad.append(("timeout", "mp:lockerror-before-timeout-elapsed", ""))
+            if o["subwriters_running"]:
+                ctx.count("mp.held_with_subwriters_running")
+            if o["g_while_held"] != g0 or o["mp_generation_attr"] != g0 + 1:
+                bad.append(("generation", "mp:generation-while-held", ""))
+            exp_gen_after = g0 + (1 if mode == "commit" else 0)
+            if o["g_after_mp"] != exp_gen_after:
+                bad.append(("generation", "mp:%s-advanced-generation-by-%d" % (mode, o["g_after_mp"] - g0), ""))
+            if o.get("alive_after_finish"):
+                ctx.count("mp.obs.subwriters_alive_after_%s" % mode, o["alive_after_finish"])      # observation only
+        if o["ids_after_mp"] != [x for x in o["expected_ids"] if x != "z"]:
+            bad.append(("lost-update", "mp:%s:documents-after-mpwriter" % mode,
+                        "expected %r observed %r" % ([x for x in o["expected_ids"] if x != "z"], o["ids_after_mp"])))
+        if o["other_process_after"] != "ok" or o["fresh_writer"] != "ok":
+            bad.append(("progress", "mp:still-locked-after-mpwriter-%s" % mode,
+                        "other process: %r, fresh writer: %r" % (o["other_process_after"], o["fresh_writer"])))
+        else:
+            ctx.count("mp.progress.fresh_writer_ok")
+            if o["g_final"] != exp_gen_after + 1:
+                bad.append(("generation", "mp:later-commit-advanced-generation-by-other-than-one", ""))
+            if o["ids_final"] != o["expected_ids"]:
+                bad.append(("lost-update", "mp:%s:final-documents" % mode,
+                            "expected %r observed %r" % (o["expected_ids"], o["ids_final"])))
+        for (mon, mech, detail) in bad[:2]:
+            ctx.fail(mon, mech, w, detail)
+        ok = not bad
+    finally:
+        shutil.rmtree(root, ignore_errors=True)
+        ctx.case(("mp", mode, multiseg), ok)
+
+
 def run(ctx):
     nthread_cases = ctx.pick(400, 4000)
     for idx in ctx.cases(quick=nthread_cases, thorough=nthread_cases):
@@ -1104,6 +1516,10 @@ def run(ctx):
         k = idx // ctx.nshards
         if k % ctx.pick(25, 25) == 7:
             run_fork_case(ctx, idx, rng)
+        elif k % 20 == 2:
+            run_fault_case(ctx, idx, rng)
+        elif k % 25 == 13:
+            run_mp_case(ctx, idx, rng)
         elif k % ctx.pick(40, 30) == 3:
             run_proc_case(ctx, idx, rng)
         elif k % ctx.pick(4, 3) == 1:
